@@ -191,7 +191,7 @@ Print Assumptions C20_oracle_eof_accepts_model.
 
 (* the expectation of the writer-boundary oracle (payloads built inside the harness, sizes around 10^k) is what the model does on
    EVERY payload of that length: header, total length, and - below 10^9 bytes - the payload comes back through the buffered reader
-   up to StatusEof / through the TLS reader iff the limit admits it, otherwise the reader throws "Max data length exceeded" *)
+   up to StatusEof / through the TLS reader iff the limit allows it, otherwise the reader throws "Max data length exceeded" *)
 Theorem C20_ns_writer_boundaries : forall max p,
   let n := ns_len p in
   ns_write p = (ns_dec n ++ [ns_colon]) ++ p ++ [ns_comma] /\
